@@ -85,6 +85,12 @@ THEOREMS = [
     'C17.keyOf_isSome_iff', 'C17.planKeys_accepts_iff', 'C17.asdictPlan_default', 'C17.slipVectorEntry_refuses_iff',
     'C17.SObj.readsUntil_coherent', 'C17.SObj.asdict_spec', 'C17.SObj.asdict_no_reference',
     'C17.gen_slipVectorRefusals_eq_model', 'C17.gen_asdictKeys_eq_model', 'C17.gen_pin_asdictLoop', 'C17.gen_pin_saveLoop',
+    # second pass of the extender round — sequencing code executed from the source instead of pinned as text
+    # (DifferentialDisplacement.solve's argument handling, the broadcasting chain and axes step of set_p_vectors / nye_tensor,
+    # what disregistry computes its profile from), refusals of solve exactly, disregistry from the two systems end to end
+    'C17.gen_ddSolveArgs_eq_model', 'C17.gen_ddInitSolves_eq_model', 'C17.gen_dispatchKind_eq_model', 'C17.gen_axesStep_eq_model',
+    'C17.gen_disregistryInputs_eq_model', 'C17.DObj.solve_refuses_iff', 'C17.dispatchP_eq_byKind',
+    'C17.disregistryCall_refuses_iff', 'C17.disregistryCall_rigid',
 ]
 PARTIAL = {
     'matchPQ_pairing': 'the conflict resolution of match_pq is proved for arbitrary lists (one q per p, the winner is the q closest '
@@ -1059,6 +1065,49 @@ def _corr_disreg(ctx, s0, s1, m, nn, planepos, exact, info, canon):
     d = _maxdiff(impl, model)
     if d > (0 if exact else 1e-9):
         ctx.disagree('disregistry', f'disregistry: implementation differs from the model by {float(d):.3e}', info)
+    _corr_disregcall(ctx, s0, s1, m, nn, planepos, exact, info, canon)
+
+
+def _corr_disregcall(ctx, s0, s1, m, nn, planepos, exact, info, canon):
+    """the WHOLE call on the model side too (`disregistryCall`: displacement with its atom-count refusal and default
+    reference, the projections on m and n, planepos·n): the model gets the systems and the three vectors, nothing
+    pre-computed.  Forms: the directions as given / as integer multiples handed over as python ints (coordinates and
+    plane position scale with them, the profile's displacements do not) / a second system that is one atom short."""
+    np = _np()
+    import atomman as am
+    rng = random.Random(f"disregcall:{info.get('caseseed')}:{info.get('it')}:{len(canon)}:{planepos}")
+    form = rng.choice(['same', 'ints', 'ints', 'short'])
+    mm, n2, sB = list(m), list(nn), s1
+    if form == 'ints':
+        km, kn = rng.choice([1, 2, 4]), rng.choice([1, 2, 4, -1, -2])
+        mm, n2 = [int(round(x)) * km for x in m], [int(round(x)) * kn for x in nn]
+        if [float(x) / km for x in mm] != [float(x) for x in m] or [float(x) / kn for x in n2] != [float(x) for x in nn]:
+            mm, n2, form = list(m), list(nn), 'same'           # (directions that are not axis vectors stay as they are)
+    if form == 'short':
+        sB = am.System(atoms=am.Atoms(atype=1, pos=s1.atoms.pos[:-1].copy()), box=s1.box, pbc=s1.pbc)
+    vec = lambda v: ' '.join(cm.fr(float(x)) for x in v)
+    line = (f'disregcall {cm.fr(1e-8)} {cm.fr(1e-5)} {_cell(s0)} {_cell(sB)} {s0.natoms} {cm.frs(s0.atoms.pos)} '
+            f'{sB.natoms} {cm.frs(sB.atoms.pos)} {vec(mm)} {vec(n2)} {vec(planepos)}')
+    out = ctx.driver.ask(line)
+    inf = dict(info, call_form=form, m=mm, n=n2, natoms1=sB.natoms)
+    ctx.stats.case('disregcall', canon + (form, tuple(mm), tuple(n2), tuple(planepos)), sample=inf)
+    r = _guard(lambda: am.defect.disregistry(s0, sB, m=mm, n=n2, planepos=planepos))
+    if isinstance(r, _Raised) or out.startswith('err:'):
+        cls = r.text.split(':')[0] if isinstance(r, _Raised) else 'a profile'
+        want = {'err:value': 'ValueError', 'err:assert': 'AssertionError'}.get(out, 'a profile')
+        if cls != want:
+            ctx.disagree('disregcall:refusal', f'disregistry(m={mm}, n={n2}, {sB.natoms} vs {s0.natoms} atoms): implementation gives '
+                         f'{r.text if isinstance(r, _Raised) else "a profile"}, the model of the whole call {want}', inf)
+        return
+    coord, dis = r
+    toks = out.split()
+    k = int(toks[0])
+    if k != len(coord):
+        ctx.disagree('disregcall', f'disregistry (whole call, {form}): {len(coord)} coordinates, model {k}', inf)
+        return
+    d = _maxdiff(np.hstack([coord[:, None], dis]).ravel(), [Fraction(t) for t in toks[1:]])
+    if d > (0 if exact else 1e-9):
+        ctx.disagree('disregcall', f'disregistry (whole call, {form}): implementation differs from the model by {float(d):.3e}', inf)
 
 
 def _corr_strain(ctx, caseseed, it, reps=4):
@@ -4544,6 +4593,54 @@ def _translate():
                  + [ast.unparse(sg[-1])]))
     sp = body(func(st, 'set_p_vectors', 'Strain'))
     pins.append(('setP', 'set_p_vectors: the broadcasting rule and the axes transformation', sum((ast.unparse(s).split('\n') for s in sp), [])))
+    def p_chain(stmts, lean, where, natoms):
+        """the broadcasting chain and the axes step of set_p_vectors / nye_tensor as Lean definitions (second pass)"""
+        ch = [s_ for s_ in stmts if isinstance(s_, ast.If) and ast.unparse(s_.test).startswith('len(p_vectors)')]
+        need(len(ch) == 1, f'{where}: broadcasting chain not found once')
+
+        def what(bd):
+            if len(bd) == 1 and isinstance(bd[0], ast.Assign) and ast.unparse(bd[0].targets[0]) == 'p_vectors' \
+                    and isinstance(bd[0].value, ast.Call) and ast.unparse(bd[0].value.func) == 'np.broadcast_to':
+                a_ = [ast.unparse(x) for x in bd[0].value.args]
+                need(len(a_) == 2 and a_[0] == 'p_vectors', f'{where}: {ast.unparse(bd[0])}')
+                if a_[1] == f'({natoms}, len(p_vectors[0]), 3)':
+                    return '.single'
+                if a_[1] == f'({natoms}, len(p_vectors), 3)':
+                    return '.whole'
+                fail(f'{where}: broadcast shape {a_[1]}')
+            for s_ in bd:                               # entry i for atom i: nothing may be broadcast or re-ordered
+                for x in ast.walk(s_):
+                    if isinstance(x, ast.Call):
+                        need(ast.unparse(x.func) in ('range', 'len', 'np.asarray', 'np.array'), f'{where}: per-atom branch calls {ast.unparse(x.func)}')
+            return '.each'
+
+        def tst(t):
+            need(isinstance(t, ast.Compare) and len(t.ops) == 1 and ast.unparse(t.left) == 'len(p_vectors)', f'{where}: test {ast.unparse(t)}')
+            rhs = {'1': '1', natoms: 'natoms'}.get(ast.unparse(t.comparators[0]))
+            op = {ast.Eq: '=', ast.NotEq: '≠'}.get(type(t.ops[0]))
+            need(rhs is not None and op is not None, f'{where}: test {ast.unparse(t)}')
+            return f'len {op} {rhs}'
+
+        def chain(s_):
+            tail = s_.orelse
+            if len(tail) == 1 and isinstance(tail[0], ast.If) and ast.unparse(tail[0].test).startswith('len(p_vectors)'):
+                rest_ = chain(tail[0])
+            else:
+                rest_ = what(tail)
+            return f'if {tst(s_.test)} then {what(s_.body)} else {rest_}'
+        out.append(f'/-- `{where}`: `if {ast.unparse(ch[0].test)}: … elif …` — which broadcasting each branch performs -/')
+        out.append(f'def dispatchKind_{lean} (len natoms : Nat) : PKind :=\n  {chain(ch[0])}')
+        ax = [s_ for s_ in stmts if isinstance(s_, ast.If) and ast.unparse(s_.test) == 'axes is not None']
+        need(len(ax) == 1 and stmts.index(ax[0]) > stmts.index(ch[0]) and len(ax[0].body) == 1 and not ax[0].orelse
+             and isinstance(ax[0].body[0], ast.Assign) and ast.unparse(ax[0].body[0].targets[0]) == 'p_vectors', f'{where}: axes step')
+        v_ = ax[0].body[0].value
+        need(isinstance(v_, ast.Call) and [ast.unparse(x) for x in v_.args] == ['p_vectors', 'axes_check(axes)'] and not v_.keywords
+             and ast.unparse(v_.func) in ('np.inner', 'np.dot'), f'{where}: {ast.unparse(v_)}')
+        mat = 'T' if ast.unparse(v_.func) == 'np.inner' else '(M3.transpose T)'
+        out.append(f'/-- `{where}`: `{ast.unparse(ax[0].body[0])}`, per vector (`T` = the rows `axes_check` returns) -/')
+        out.append(f'def axesStep_{lean} (T : M3 K) (p : V3 K) : V3 K := M3.mulVec {mat} p')
+        out.append('')
+    p_chain(sp, 'setP', 'set_p_vectors', 'system.natoms')
     ini = body(func(st, '__init__', 'Strain'))
     pins.append(('strainInit', 'Strain.__init__: after the neighbour block', sum((ast.unparse(s).split('\n') for s in ini[2:]), [])))
     bp = body(func(st, 'build_p_vectors', 'Strain'))
@@ -4781,6 +4878,184 @@ def _translate():
     pins.append(('ddReference', 'the reference setter', [ast.unparse(s) for s in body(rs[0])]))
     out.append('')
 
+    # DifferentialDisplacement.solve: the argument handling EXECUTED symbolically into a Lean function of the object's
+    # stored state and the five optional arguments (second pass; the statement pin `ddSolve` stays beside it)
+    ddcls = [c for c in ddc.body if isinstance(c, ast.ClassDef) and c.name == 'DifferentialDisplacement']
+    need(len(ddcls) == 1, 'class DifferentialDisplacement')
+    for attr in ('system0', 'system1', 'neighbors', 'reference'):
+        gb = body(func(ddc, attr, 'DifferentialDisplacement'))
+        need(len(gb) == 1 and ast.unparse(gb[0]) == f'return self.__{attr}', f'DifferentialDisplacement.{attr} getter: {ast.unparse(gb[0])}')
+    need([a.arg for a in f.args.args] == ['self', 'system0', 'system1', 'neighbors', 'cutoff', 'reference']
+         and [ast.unparse(d) for d in f.args.defaults] == ['None'] * 5, 'DifferentialDisplacement.solve: signature')
+    setter_body = body(rs[0])
+    need(len(rs[0].args.args) == 2 and rs[0].args.args[1].arg == 'value', 'reference setter: argument name')
+    fresh_n = [0]
+    phis = {}
+
+    def fresh(pfx):
+        fresh_n[0] += 1
+        return f'{pfx}{fresh_n[0]}'
+
+    def st_tuple(state):
+        nl = state['neighbors']
+        return (f"({state['system0'][1]}, {state['system1'][1]}, {state['reference'][1]}, "
+                f"{nl[1] if nl[0] == 'opt' else '(some ' + nl[1] + ')'})")
+
+    def dd_val(n, env, state):
+        u = ast.unparse(n)
+        if isinstance(n, ast.Name):
+            need(n.id in env, f'solve: name {n.id} read before it is bound')
+            return env[n.id]
+        if isinstance(n, ast.Constant) and isinstance(n.value, int) and not isinstance(n.value, bool):
+            return ('val', str(n.value))
+        if isinstance(n, ast.Attribute) and u.startswith('self.') and not u.startswith('self.__') and n.attr in state:
+            return state[n.attr]
+        if isinstance(n, ast.Attribute) and n.attr == 'natoms':
+            w = dd_val(n.value, env, state)
+            need(w[0] == 'val', f'solve: {u}')
+            return ('val', f'natoms {w[1]}')
+        if isinstance(n, ast.Call) and isinstance(n.func, ast.Attribute) and n.func.attr == 'neighborlist':
+            need(not n.args and [(k.arg, ast.unparse(k.value)) for k in n.keywords] == [('cutoff', 'cutoff')]
+                 and env.get('cutoff', ('opt',))[0] == 'val', f'solve: {u}')
+            cu = env['cutoff'][1]
+
+            def sel(w):
+                if w == env['system0']:
+                    return f'{cu}.1'
+                if w == env['system1']:
+                    return f'{cu}.2'
+                if w[1] in phis:
+                    c_, a_, b_ = phis[w[1]]
+                    return f'(if {c_} then {sel(a_)} else {sel(b_)})'
+                fail(f'solve: list built from {w[1]}')
+            return ('val', sel(dd_val(n.func.value, env, state)))
+        fail(f'solve: expression {u}')
+
+    def dd_test(n, env, state):
+        """('opt', name, positive, key, where) for `x is (not) None`, else ('bool', lean)"""
+        if isinstance(n, ast.Compare) and len(n.ops) == 1 and isinstance(n.ops[0], (ast.Is, ast.IsNot)) \
+                and ast.unparse(n.comparators[0]) == 'None':
+            w = dd_val(n.left, env, state)
+            need(w[0] == 'opt', f'solve: None-test of {ast.unparse(n.left)}, which is not optional here')
+            if isinstance(n.left, ast.Name):
+                return ('opt', w[1], isinstance(n.ops[0], ast.IsNot), n.left.id, 'env')
+            return ('opt', w[1], isinstance(n.ops[0], ast.IsNot), n.left.attr, 'state')
+        if isinstance(n, ast.BoolOp) and isinstance(n.op, ast.Or):
+            return ('bool', '(' + ' ∨ '.join(dd_test(v, env, state)[1] for v in n.values) + ')')
+        if isinstance(n, ast.Compare) and len(n.ops) == 1 and isinstance(n.ops[0], ast.Eq):
+            a_, b_ = dd_val(n.left, env, state), dd_val(n.comparators[0], env, state)
+            need(a_[0] == 'val' and b_[0] == 'val', f'solve: test {ast.unparse(n)}')
+            return ('bool', f'{a_[1]} = {b_[1]}')
+        fail(f'solve: test {ast.unparse(n)}')
+
+    def may_refuse(stmts):
+        return any(isinstance(x, (ast.Raise, ast.Assert)) or (isinstance(x, ast.Assign) and any(
+            ast.unparse(t) == 'self.reference' for t in x.targets)) for s_ in stmts for x in ast.walk(s_))
+
+    def dd_assign(s, env, state):
+        v = dd_val(s.value, env, state)
+        env, state = dict(env), dict(state)
+        for t in s.targets:
+            tu = ast.unparse(t)
+            if isinstance(t, ast.Name):
+                env[t.id] = v
+            elif tu.startswith('self.__') and tu[7:] in state:
+                need(v[0] == 'val', f'solve: {ast.unparse(s)} stores an optional')
+                state[tu[7:]] = v
+            else:
+                fail(f'solve: assignment to {tu}')
+        return env, state
+
+    def branches(s, env, state):
+        """[(pattern-or-condition text, env, state, statements)] of an If, `some` / then branch first"""
+        t = dd_test(s.test, env, state)
+        if t[0] == 'bool':
+            return ('if', t[1]), [(env, state, s.body), (env, state, s.orelse)]
+        _, nm, positive, key, where = t
+        v = fresh('v')
+        e2, s2 = dict(env), dict(state)
+        (e2 if where == 'env' else s2)[key] = ('val', v)
+        some_b, none_b = (s.body, s.orelse) if positive else (s.orelse, s.body)
+        return ('match', nm, v), [(e2, s2, some_b), (env, state, none_b)]
+
+    def straight(stmts, env, state):
+        for s in stmts:
+            need(isinstance(s, ast.Assign), f'solve: {ast.unparse(s)[:50]} inside a branch that is merged')
+            env, state = dd_assign(s, env, state)
+        return env, state
+
+    def join(head, a_, b_):
+        if head[0] == 'if':
+            return f'(if {head[1]} then {a_} else {b_})'
+        return f'(match {head[1]} with | some {head[2]} => {a_} | none => {b_})'
+
+    def run(stmts, env, state):
+        if not stmts:
+            nb = env['neighbors']
+            need(nb[0] == 'val', 'solve: the loop is reached without a neighbour list')
+            return f'({st_tuple(state)}, .ok {nb[1]})'
+        s, rest = stmts[0], stmts[1:]
+        if isinstance(s, ast.Assert):
+            t = dd_test(s.test, env, state)
+            need(t[0] == 'bool', 'solve: assertion')
+            return f'(if {t[1]} then {run(rest, env, state)} else ({st_tuple(state)}, .error .assert))'
+        if isinstance(s, ast.Raise):
+            need(ast.unparse(s.exc).startswith('ValueError('), f'solve: raises {ast.unparse(s.exc)[:40]}')
+            return f'({st_tuple(state)}, .error .value)'
+        if isinstance(s, ast.Assign) and [ast.unparse(t) for t in s.targets] == ['self.reference']:
+            e2 = dict(env)                       # the property setter, inlined with `value` bound to the right-hand side
+            e2['value'] = dd_val(s.value, env, state)
+            return run(list(setter_body) + rest, e2, state)
+        if isinstance(s, ast.Assign):
+            env, state = dd_assign(s, env, state)
+            return run(rest, env, state)
+        if isinstance(s, ast.If):
+            head, (b1, b2) = branches(s, env, state)
+            if may_refuse([s]):
+                return join(head, run(list(b1[2]) + rest, b1[0], b1[1]), run(list(b2[2]) + rest, b2[0], b2[1]))
+            (ea, sa), (eb, sb) = straight(b1[2], b1[0], b1[1]), straight(b2[2], b2[0], b2[1])
+            env, state = dict(env), dict(state)
+            for d_, da, db in ((env, ea, eb), (state, sa, sb)):
+                for k in set(da) | set(db):
+                    if k in da and k in db and da[k] != db[k]:
+                        need(da[k][0] == 'val' and db[k][0] == 'val', f'solve: {k} is optional after a merged branch')
+                        m_ = join(head, da[k][1], db[k][1])
+                        if head[0] == 'if':
+                            phis[m_] = (head[1], da[k], db[k])
+                        d_[k] = ('val', m_)
+                    elif k in da and k in db:
+                        d_[k] = da[k]
+                    else:
+                        d_.pop(k, None)       # bound on one path only: unusable afterwards
+            return run(rest, env, state)
+        fail(f'solve: statement {ast.unparse(s)[:60]}')
+    args_stmts = [s for s in pre if not (isinstance(s, ast.Assign) and ast.unparse(s.value) == '[]')]
+    env0 = {k: ('opt', k) for k in ('system0', 'system1', 'neighbors', 'reference')}
+    env0['cutoff'] = ('opt', 'cutoff')
+    state0 = {'system0': ('val', 'o0'), 'system1': ('val', 'o1'), 'reference': ('val', 'oref'), 'neighbors': ('opt', 'onl')}
+    # `cutoff` is only tested and handed on: inside its `some` branch it is the pair of lists the two systems get for it
+    term = run(args_stmts, env0, state0)
+    out.append('/-- `DifferentialDisplacement.solve`: everything before the loop over atoms, executed on the stored state')
+    out.append('    `(o0, o1, oref, onl)` = (`__system0`, `__system1`, `__reference`, `__neighbors`) and the five optional arguments;')
+    out.append('    `cutoff` carries the lists (`system0`, `system1`) would get from `neighborlist(cutoff=)`.  Result: the stored state')
+    out.append('    afterwards and the list the loop uses, or the refusal (assert = AssertionError, value = ValueError). -/')
+    out.append('def ddSolveArgs {S L : Type} (natoms : S → Nat) (o0 o1 : S) (oref : Nat) (onl : Option L)')
+    out.append('    (system0 system1 : Option S) (neighbors : Option L) (cutoff : Option (L × L)) (reference : Option Nat) :')
+    out.append('    (S × S × Nat × Option L) × Except DErr L :=')
+    out.append('  ' + term)
+    need(isinstance(di[0], ast.If) and len(di) == 1, 'DifferentialDisplacement.__init__: shape')
+    tt = di[0].test
+    need(isinstance(tt, ast.BoolOp) and isinstance(tt.op, ast.Or) and all(
+        ast.unparse(v) in ('neighbors is not None', 'cutoff is not None') for v in tt.values) and len(tt.values) == 2
+        and len({ast.unparse(v) for v in tt.values}) == 2, f'DifferentialDisplacement.__init__: test {ast.unparse(tt)}')
+    call = di[0].body[0]
+    need(len(di[0].body) == 1 and isinstance(call, ast.Expr) and ast.unparse(call.value) ==
+         'self.solve(system0, system1, neighbors=neighbors, cutoff=cutoff, reference=reference)', 'DifferentialDisplacement.__init__: solve call')
+    out.append(f'/-- `DifferentialDisplacement.__init__`: `if {ast.unparse(tt)}:` → `solve` with all five arguments -/')
+    out.append('def ddInitSolves {L C : Type} (neighbors : Option L) (cutoff : Option C) : Bool :=')
+    out.append('  ' + ' || '.join({'neighbors is not None': 'neighbors.isSome', 'cutoff is not None': 'cutoff.isSome'}[ast.unparse(v)] for v in tt.values))
+    out.append('')
+
     # ------------------------------------------------------------------ nye_tensor.py: Levi-Civita table and contraction
     f = func(nt, 'nye_tensor')
     stm = body(f)
@@ -4819,6 +5094,7 @@ def _translate():
     gl = [s for s in ast.walk(lp2) if isinstance(s, ast.Assign) and ast.unparse(s.targets[0]).startswith('gradG[')]
     pins.append(('nyeTensorLoop', 'nye_tensor: pairing decisions, conflict loop, G, strain measures, gradG',
                  sum((ast.unparse(s).split('\n') for s in stm if isinstance(s, ast.For)), [])))
+    p_chain(stm, 'nyeTensor', 'nye_tensor', 'system.natoms')
     pins.append(('nyeTensorPre', 'nye_tensor: p-vector broadcasting, axes, cos', sum((ast.unparse(s).split('\n') for s in stm[1:stm.index(epsd[0])]), [])))
     need(len(gl) == 1, 'nye_tensor: gradG')
     out.append('')
@@ -4828,6 +5104,38 @@ def _translate():
     f = func(dr, 'disregistry')
     pins.append(('disregistry', 'disregistry: every statement (numpy calls: unique, isclose, interp, union1d, mean)',
                  [ast.unparse(f.args)] + sum((ast.unparse(s).split('\n') for s in body(f)), [])))
+    # disregistry: what the profile is computed from, as a Lean definition (second pass)
+    need([a.arg for a in f.args.args] == ['basesystem', 'dislsystem', 'm', 'n', 'planepos'], 'disregistry: signature')
+    asg = {}
+    for s_ in body(f):
+        if isinstance(s_, ast.Assign) and isinstance(s_.targets[0], ast.Name) and len(s_.targets) == 1:
+            asg.setdefault(s_.targets[0].id, []).append(s_.value)
+    for k_ in ('m', 'n', 'planepos'):
+        need(len(asg.get(k_, [])) == 1 and ast.unparse(asg[k_][0]) == f'np.asarray({k_}, dtype=float)', f'disregistry: conversion of {k_}')
+    for k_ in ('basepos', 'disp', 'allx', 'ally', 'midy'):
+        need(len(asg.get(k_, [])) == 1, f'disregistry: {k_} assigned {len(asg.get(k_, []))} times')
+    sysof = {'basesystem': '0', 'dislsystem': '1'}
+    bp_ = ast.unparse(asg['basepos'][0])
+    need(bp_.endswith('.atoms.pos') and bp_[:-10] in sysof, f'disregistry: basepos = {bp_}')
+    posname = {'basepos': f'pos{sysof[bp_[:-10]]} i'}
+    dc = asg['disp'][0]
+    need(isinstance(dc, ast.Call) and ast.unparse(dc.func) == 'displacement' and not dc.keywords and len(dc.args) == 2
+         and all(ast.unparse(a_) in sysof for a_ in dc.args), f'disregistry: {ast.unparse(dc)}')
+    k0, k1 = (sysof[ast.unparse(a_)] for a_ in dc.args)
+
+    def dotof(v_, per_atom):
+        need(isinstance(v_, ast.Call) and ast.unparse(v_.func) == 'np.dot' and len(v_.args) == 2 and not v_.keywords, f'disregistry: {ast.unparse(v_)}')
+        a_, b_ = (ast.unparse(x) for x in v_.args)
+        need(b_ in ('m', 'n') and (a_ in posname if per_atom else a_ == 'planepos'), f'disregistry: {ast.unparse(v_)}')
+        return f'V3.dot ({posname[a_]}) {b_}' if per_atom else f'V3.dot planepos {b_}'
+    out.append('/-- `disregistry`: `disp = displacement(…)` (default box_reference), `allx`, `ally`, `midy` -/')
+    out.append('def disregistryInputs (n0 n1 : Nat) (c0 c1 : Cell K) (pos0 pos1 : Nat → V3 K) (m n planepos : V3 K) :')
+    out.append('    Except NbrErr (List (K × K × V3 K) × K) :=')
+    out.append(f'  match displacementCall n{k0} n{k1} c{k0} c{k1} .final pos{k0} pos{k1} with')
+    out.append('  | .error e => .error e')
+    out.append(f'  | .ok disp => .ok ((List.range n{sysof[bp_[:-10]]}).map (fun i => ({dotof(asg["allx"][0], True)}, {dotof(asg["ally"][0], True)}, disp i)), '
+               f'{dotof(asg["midy"][0], False)})')
+    out.append('')
     f = func(ddf, 'differential_displacement')
     keep = [ast.unparse(s) for s in ast.walk(f) if isinstance(s, ast.Assign)
             and ast.unparse(s.targets[0]) in ('T', 'dvectors_0', 'dvectors_1', 'dd_vectors')]
